@@ -272,6 +272,9 @@ class SheetGen:
         elif t in ("add_to_group", "remove_from_group"):
             # (a group may well be called like a flow: they are different objects with identifiers of their own)
             row["message_text"] = rng.choice(["GrpA", "GrpB", "Grp D", "GrpA", "child one"])
+            if rng.random() < 0.25:
+                # several groups in one cell: the action names every one of them, in order
+                row["message_text"] = ";".join(rng.sample(["GrpA", "GrpB", "Grp D", "GrpC", "child one"], rng.randint(2, 3)))
         elif t == "save_flow_result":
             row["message_text"] = f"res{n}"
             row["save_name"] = rng.choice(["answer", "score"])
